@@ -192,9 +192,17 @@ def c04_forms(rng, n):
                 import calendar as _c
                 d = rng.randint(1, _c.monthrange(2020, m)[1])
             out.append(_doy_form(rng, d, m))
-        else:
+        elif r < 0.93:
             s, pod = rng.choice(POD_FORMS)
             out.append({"c": "pod", "p": [pod], "s": s, "t": "pod:" + s})
+        else:
+            # weekday + day of month (ruleDOWDOM): "Monday 31st", "Montag der 5."
+            w = rng.randrange(7)
+            nn = rng.choice([1, 5, 13, 28, 29, 30, 31, 31, 30, rng.randint(1, 31)])
+            tpl = rng.choice(["{w} {o}", "{w} the {o}", "{w} {n}.", "{w} der {n}.", "{w} den {n}."])
+            out.append({"c": "dowdom", "p": [w, nn],
+                        "s": tpl.format(w=_pick_dow(rng, w), n=nn, o=_ord_en(nn)),
+                        "t": "dowdom:" + tpl})
     return out
 
 
@@ -364,11 +372,14 @@ def c06_forms(rng, n, year_hint=2020):
             if mi and rng.random() < 0.5:
                 continue
             if 1 <= h <= 11:
-                pw = rng.choice(["in the morning", "morgens", "vormittags"])
+                pw = rng.choice(["in the morning", "morgens", "vormittags",
+                                 "in the early morning", "in the late morning"])
             elif 13 <= h <= 17:
-                pw = rng.choice(["in the afternoon", "nachmittags"])
+                pw = rng.choice(["in the afternoon", "nachmittags", "in the late afternoon",
+                                 "in the early afternoon", "am späten nachmittag"])
             elif 18 <= h <= 23:
-                pw = rng.choice(["in the evening", "abends", "at night"])
+                pw = rng.choice(["in the evening", "abends", "at night", "in the early evening",
+                                 "in the late evening", "late at night", "am frühen abend"])
             else:
                 continue
             hh = h if h < 12 else h - 12
